@@ -627,7 +627,12 @@ func writeEvidence(prop, tier string, seed int64, a *agg, wall time.Duration, nv
 			"sampling, not enumeration: a clean batch bounds nothing beyond the explored histories",
 		},
 	}
-	os.MkdirAll(filepath.Join(verifRoot, "evidence"), 0755)
+	evDir := filepath.Join(verifRoot, "evidence")
+	if r := os.Getenv("VERIF_REPO"); r != "" && r != "/repo" {
+		// a sensitivity run against a scratch copy of the repository: not evidence about /repo
+		evDir = filepath.Join(verifRoot, "bin", "evidence-scratch")
+	}
+	os.MkdirAll(evDir, 0755)
 	b, _ := json.MarshalIndent(ev, "", " ")
-	ioutil.WriteFile(filepath.Join(verifRoot, "evidence", prop+".json"), b, 0644)
+	ioutil.WriteFile(filepath.Join(evDir, prop+".json"), b, 0644)
 }
